@@ -123,7 +123,8 @@ var _ *pb.SharedGroupProposal
 //@ requires [wf] wfGroup(this) && this.transport.clusterConn != nil && book(this) != nil && this.transport.clusterConn.conns != nil
 //@ requires [conns] forall j uint64 :: has(this.transport.clusterConn.conns, j) ==> this.transport.clusterConn.conns[j] != nil
 //@ ensures [C05 confchange-applied] applied == 1 || (!isnil(ret) && applied == 0)
-//@ ensures [C20 join-lists-announced-address] this.id == uuid.Nil && applied == 1 && cc.Type == 0 ==> has(book(this), cc.NodeID) && book(this)[cc.NodeID] == string(cc.Context)
+//@ ensures [C20 join-lists-announced-address] this.id == uuid.Nil && applied == 1 && cc.Type == 0 ==> has(book(this), cc.NodeID) && (len(cc.Context) > 0 ==> book(this)[cc.NodeID] == string(cc.Context))
+//@ ensures [C20 entry-without-address-keeps-known-address] this.id == uuid.Nil && applied == 1 && cc.Type == 0 && len(cc.Context) == 0 && old(has(book(this), cc.NodeID)) ==> book(this)[cc.NodeID] == old(book(this)[cc.NodeID])
 //@ ensures [C20 leave-unlists] this.id == uuid.Nil && applied == 1 && cc.Type == 1 ==> !has(book(this), cc.NodeID)
 //@ ensures [C20 other-groups-untouched] this.id != uuid.Nil ==> forall j uint64 :: has(book(this), j) == old(has(book(this), j)) && book(this)[j] == old(book(this)[j])
 //@ ensures [wf] wfGroup(this)
@@ -275,14 +276,21 @@ var _ *pb.SharedGroupProposal
 //@ modifies nothing
 
 // bootstrap (StartNode) happens only behind a positive freshness test of this very storage
+// C20: the node's own bootstrap entry carries its address (the only durable record of the first node's address)
 //@ func storage/raft.startRaftNode
-//@ props C05
+//@ props C05 C20
 //@ safety UNCLAIMED
+//@ at call raft.StartNode
+//@ requires [C20 bootstrap-entry-carries-address] len($arg1) == len(nodeIds) && forall i int :: 0 <= i && i < len($arg1) ==> $arg1[i].ID == nodeIds[i] && ($arg1[i].ID == id ==> string($arg1[i].Context) == address)
+//@ end
 //@ requires [storage] !isnil(storage)
 //@ ensures [node] isnil(ret1) ==> !isnil(ret0)
 //@ modifies nothing
 //@ loop 1
 //@ invariant [peers-local] isnil(peers) || fresh(peers)
+//@ invariant [C20 peers-so-far] len(peers) == rangeindex + 1 && forall i int :: 0 <= i && i < len(peers) ==> peers[i].ID == nodeIds[i]
+//@ invariant [contexts-exist] forall i int :: 0 <= i && i < len(peers) ==> peers[i].Context == nil || allocated(peers[i].Context)
+//@ invariant [C20 own-peer-carries-address] forall i int :: 0 <= i && i < len(peers) && peers[i].ID == id ==> string(peers[i].Context) == address
 
 //@ func (*storage/raft.RaftTransport).addGroup
 //@ props C05 C14
